@@ -2,6 +2,10 @@
    driver can count how many generated steps fall under a proved lemma.  No proofs here. *)
 From VV.PG Require Export CorrGen.
 
+Definition with_enums (c : catalog) (types : list (string * list string)) : catalog :=
+  mkCat (c_tables c) (fold_left (fun m e => bt_insert (fst e) (snd e) m) types (c_enums c)).
+Definition opt_is_none {A} (o : option A) : bool := match o with None => true | Some _ => false end.
+
 Definition hyp_modify_comment (s : schema) (tn cn : string) : bool :=
   (nodup_str (map t_name s)
    && match find (fun x => String.eqb (t_name x) tn) s with
@@ -145,6 +149,32 @@ Definition hyp_add_column := hyp_add_column_gen false.
 (* the back-fill sequence: ADD COLUMN (nullable); UPDATE; ALTER COLUMN .. TYPE .., ALTER COLUMN .. SET NOT NULL *)
 Definition hyp_add_column_backfill := hyp_add_column_gen true.
 
+(* AddColumn of a string-enum column: CREATE TYPE first, then either statement sequence.  Outside K2 (the enum name is
+   used by no other column of the table), K9 (the unquoted type name resolves to the new type), K10 (no type / table
+   of that name) *)
+Definition hyp_add_column_enum (s : schema) (tn : string) (col : column_def) (fw : option string) : bool :=
+  (nodup_str (map t_name s)
+   && match find (fun x => String.eqb (t_name x) tn) s, c_type col with
+      | Some t, TEnum en vals =>
+          let t' := mkTable (t_name t) (t_description t) (t_columns t ++ [col]) (t_constraints t) in
+          let N := build_enum_type_name tn en in
+          let L := enum_sql_values vals in
+          (negb (ev_is_integer vals)
+           && negb (has_column (c_name col) t)
+           && negb (other_col_with_enum s tn (c_name col) en)
+           && match normalize t' with Ok n => table_def_eqb n t' | Err _ => false end
+           && nodup_str (map fst (flat_map table_enums s))
+           && negb (mem_str N (map fst (flat_map table_enums s)))
+           && negb (type_exists N (catalog_of s))
+           && forallb is_quoted_literal L && opt_is_none (first_dup L)
+           && match resolve_type (with_enums (catalog_of s) [(N, L)]) (sea_type tn (c_type col)) with
+              | Ok (x, false) => String.eqb x N
+              | _ => false
+              end
+           && match pk_of t with Some (_, cols) => negb (mem_str (c_name col) cols) | None => true end)%bool
+      | _, _ => false
+      end)%bool.
+
 (* ---------- DeleteColumn, plain: the column has no enum type and takes nothing with it ---------- *)
 Definition constraint_avoids (cn : string) (k : table_constraint) : bool :=
   match k with
@@ -255,9 +285,6 @@ Definition fk_ready (c : catalog) (n : table_def) (k : table_constraint) : bool 
   end.
 Definition created_type_pairs (tn : string) (cols : list column_def) : list (string * list string) :=
   flat_map (fun st => match st with SCreateType n l => [(n, l)] | _ => [] end) (create_enum_types tn cols []).
-Definition with_enums (c : catalog) (types : list (string * list string)) : catalog :=
-  mkCat (c_tables c) (fold_left (fun m e => bt_insert (fst e) (snd e) m) types (c_enums c)).
-Definition opt_is_none {A} (o : option A) : bool := match o with None => true | Some _ => false end.
 Definition pairs_eqb (a b : list (string * list string)) : bool :=
   dec_b (list_eq_dec (pair_eq_dec string_dec (list_eq_dec string_dec))) a b.
 Definition hyp_create_table (s : schema) (tn : string) (cols : list column_def) (ks : list table_constraint) : bool :=
@@ -297,7 +324,7 @@ Definition sim_hyp (s : schema) (a : action) : bool :=
   | RemoveConstraint t (CPrimaryKey a cols) => hyp_remove_pk s t (CPrimaryKey a cols)
   | RemoveConstraint t k => hyp_remove_constraint s t k
   | DeleteTable t => hyp_delete_table s t
-  | AddColumn t col fw => (hyp_add_column s t col fw || hyp_add_column_backfill s t col fw)%bool
+  | AddColumn t col fw => (hyp_add_column s t col fw || hyp_add_column_backfill s t col fw || hyp_add_column_enum s t col fw)%bool
   | DeleteColumn t c => hyp_delete_column s t c
   | CreateTable t cols ks => hyp_create_table s t cols ks
   | ModifyColumnNullable t c n _ => hyp_modify_nullable s t c n
